@@ -176,6 +176,12 @@ func gen(g *vh.Gen) {
 			g.Emit("smtp", append(c.Fields(), smtpd.NetField([][]byte{stream[:k], stream[k:]}, "eof"))...)
 		}
 	}
+	// lock-step clients (see smtpd.LockStepField)
+	for i := 0; i < g.N(30, 1500); i++ {
+		c, pool := smtpd.GenCfg(g, o)
+		stream := smtpd.GenDialogue(g, c, pool, o)
+		g.Emit("smtp", append(c.Fields(), smtpd.LockStepField(g, stream, i%3))...)
+	}
 }
 
 func exec(kind string, in []string) []string {
